@@ -7,10 +7,10 @@ import json, pathlib, re, shutil
 LOG = pathlib.Path("/root/work/confirm_refac.log")
 mine = {}
 for line in LOG.read_text().splitlines() if LOG.exists() else []:
-    m = re.match(r"/tmp/refac[234]?_(C\d\d)/(R\d+) (.*)", line)
+    m = re.match(r"/tmp/refac[2345]?_(C\d\d)/(R\d+) (.*)", line)
     if m:
         mine[f"{m.group(1)}-{m.group(2)}"] = m.group(3).strip("= ")
-for src in sorted(list(pathlib.Path("/tmp").glob("refac_C*/R*")) + list(pathlib.Path("/tmp").glob("refac2_C*/R*")) + list(pathlib.Path("/tmp").glob("refac3_C*/R*")) + list(pathlib.Path("/tmp").glob("refac4_C*/R*"))):
+for src in sorted(list(pathlib.Path("/tmp").glob("refac_C*/R*")) + list(pathlib.Path("/tmp").glob("refac2_C*/R*")) + list(pathlib.Path("/tmp").glob("refac3_C*/R*")) + list(pathlib.Path("/tmp").glob("refac4_C*/R*")) + list(pathlib.Path("/tmp").glob("refac5_C*/R*"))):
     if not ((src / "patch.diff").exists() and (src / "notes.md").exists()):
         continue
     rid = f"{src.parent.name.split('_')[1]}-{src.name}"
